@@ -16,6 +16,8 @@ HAZARDS = [
     "24 uhr", "24h", "24 o'clock", "24:30", "10:60", "32.1.", "1.13.", "32nd",
     # decimal digits outside ASCII: Arabic-Indic, fullwidth, and digits of Unicode 16 (the regex module's tables may be newer than the interpreter's)
     "\u0663 days", "\U00010d43 days", "\U000116d3 uhr",
+    # characters whose compatibility-normalised form has another length (offsets behind them must stay offsets into the normalised text)
+    "lunch\u2026", "\ufb01x", "\u00bd", "Bu\u0308ro",
 ]
 
 HAZARD_CORE = [
